@@ -205,7 +205,16 @@ fn set_regs(vm: &mut truth::vm::AstVm, regs: &Sexp) {
 }
 
 /// oracle: VM(e) = VM(const_simplify(e)) under a register valuation
+fn has_undefined_const_subexpr(e: &Sexp) -> bool {
+    if matches!(ref_eval(e), Ok(None)) { return true; }
+    match e.head() {
+        Some("un") | Some("bin") | Some("tern") => e.args().iter().skip(if e.head() == Some("tern") { 0 } else { 1 }).any(has_undefined_const_subexpr),
+        _ => false,
+    }
+}
+
 fn vm_fold(e: &Sexp, regs: &Sexp) -> Sexp {
+    let e_sexp = e;
     let mut scope = truth::Builder::new().capture_diagnostics(true).build();
     let mut truth = scope.truth();
     let orig = match parse_expr(&mut truth, e) {
@@ -233,6 +242,10 @@ fn vm_fold(e: &Sexp, regs: &Sexp) -> Sexp {
     };
     if let Err(e) = simplified {
         e.ignore();
+        // "Constant expressions with no defined value, such as division by zero, are reported as errors":
+        // a constant SUBexpression without a value (e.g. `63 / int(-0.0)` in a branch this valuation does
+        // not take) makes the error the required outcome, whatever the run-time value of the whole is.
+        if has_undefined_const_subexpr(e_sexp) { return Sexp::app("pass", vec![Sexp::atom("undefined-constant-subexpression-rejected")]); }
         return fail("fold-rejects-defined-expression", format!("VM gives {} but const_simplify reports: {}", value_sexp(&before), diag_class(&truth.get_captured_diagnostics().unwrap_or_default())));
     }
     let mut vm = truth::vm::AstVm::new();
